@@ -41,10 +41,20 @@ func (p *ppCore) hit(kind, comp string) error {
 }
 
 func (p *ppCore) PostProcessBeforeInitialization(c any, name string) (any, error) {
-	return c, p.hit("before", name)
+	if err := p.hit("before", name); err != nil && p.NilOnFail {
+		return nil, err
+	} else if err != nil {
+		return c, err
+	}
+	return c, nil
 }
 func (p *ppCore) PostProcessAfterInitialization(c any, name string) (any, error) {
-	return c, p.hit("after", name)
+	if err := p.hit("after", name); err != nil && p.NilOnFail {
+		return nil, err
+	} else if err != nil {
+		return c, err
+	}
+	return c, nil
 }
 func (p *ppCore) PostProcessBeforeInstantiation(m *component_definition.Meta, name string) (any, error) {
 	if err := p.hit("before-inst", name); err != nil {
